@@ -1,4 +1,4 @@
-#!/venv/bin/python
+#!/usr/bin/env python3
 """Benign-variant fuzzer: generate behaviour-preserving variants of /repo and make sure every check stays silent.
 
   A. whole-package `ast.unparse` round trip (formatting, quoting, parenthesisation, comments)
@@ -18,7 +18,7 @@ from concurrent.futures import ProcessPoolExecutor
 
 VERIF = os.path.dirname(os.path.dirname(os.path.abspath(__file__)))
 sys.path.insert(0, VERIF)
-from sa.core import Repo, Check, AnalysisError, run_rules  # noqa: E402
+from sa.core import Repo, Check, AnalysisError, run_rules, unlisted_violations  # noqa: E402
 
 CORE = ["liquer/context.py", "liquer/cache.py", "liquer/parser.py", "liquer/store.py", "liquer/commands.py", "liquer/state.py",
         "liquer/state_types.py", "liquer/recipes.py", "liquer/server/blueprint.py", "liquer/remote_store.py"]
@@ -190,7 +190,7 @@ def run(job):
                 repo = Repo(sc)
                 chk = Check(p, repo, "quick")
                 errs = run_rules(mod, chk)
-                v = sorted({o.rule for o in chk.obs if not o.ok})
+                v = sorted({o.rule for o in unlisted_violations(chk)})
                 if v:
                     bad.append((p, "VIOLATION", v))
                 if errs:
